@@ -510,6 +510,22 @@ class Runner:
             if b != a:
                 self.fail(f"argument_mutated:{step['f']}", f"{step['f']} changed its argument {i}: {str(b)[:150]} -> {str(a)[:150]}")
         self.results.append(res)
+        # equal arguments, other OBJECTS: the result may not depend on whether two arguments are the same
+        # object, a module constant itself, or fresh copies with the same value
+        if fn.cost == 0 and not self.fresh and res[0] == "ok" and args:
+            try:
+                copies = [W.build(d_) for d_ in arg_descs]
+            except Exception:  # noqa - not every argument has a rebuildable descriptor
+                copies = None
+            if copies is not None:
+                try:
+                    out2 = ("ok", W.desc(fn.call(*copies)))
+                except Exception as e2:  # noqa
+                    out2 = ("exc", type(e2).__name__)
+                if out2 != ("ok", res[2]):
+                    self.fail(f"depends_on_object_identity:{step['f']}",
+                              f"{step['f']} gives {str(res[2])[:160]} on the given objects and {str(out2[1])[:160]} on "
+                              f"equal-valued fresh copies of them")
         key = canon([step["f"], arg_descs])
         rd = res[2] if res[0] == "ok" else {"raises": res[1]}
         if key in self.memo and self.memo[key][0] != rd:
